@@ -1,6 +1,7 @@
 import Rare.Model.C07AccCompile
 import Rare.Proofs.C07Acc
 import Rare.Proofs.C10
+import Rare.Proofs.C08
 /-!
 C07 × C10: the accumulating group configured through the compiler with static optimisation ON is the
 same aggregator as the one configured with optimisation OFF (`compile_opt_sound` of C10: whenever the
@@ -118,5 +119,60 @@ theorem reach_applyAllT (reg : Registry) (opt : Bool) (ops : List AccTOp) : ∀ 
         subst h
         obtain ⟨aop, ha⟩ := applyT_is_apply reg opt s s' op e h1
         exact ih s' q (AccReach.step s s' aop e hr ha) h2
+
+/-! ### configuration never panics for a registry of safe builders -/
+
+theorem compileStage_ok (reg : Registry) (hreg : Rare.Expr.SafeRegistry reg) (opt : Bool) (t : List Char) :
+    ∃ c, compileStage reg opt t = .ok c := by
+  obtain ⟨st, errs, h, _⟩ := Rare.Expr.compile_total reg hreg opt t
+  unfold compileStage; rw [h]; exact ⟨_, rfl⟩
+
+theorem applyT_cfg_ok (reg : Registry) (hreg : Rare.Expr.SafeRegistry reg) (opt : Bool) (s : AccGroup) (op : AccTOp)
+    (hop : op.isSample = false) : ∃ s' e, s.applyT reg opt op = .ok (s', e) ∧ s'.data = s.data := by
+  have hg : ∀ n c, (s.addGroupExpr n c).1.data = s.data := by
+    intro n c; unfold AccGroup.addGroupExpr; split
+    · rfl
+    · split
+      · rfl
+      · cases c <;> rfl
+  have hd : ∀ n c i, (s.addDataExpr n c i).1.data = s.data := by
+    intro n c i; unfold AccGroup.addDataExpr; split
+    · rfl
+    · split
+      · rfl
+      · cases c <;> rfl
+  have hs : ∀ c, (s.setSort c).1.data = s.data := by
+    intro c; cases c <;> rfl
+  cases op with
+  | addGroup n t =>
+    obtain ⟨c, hc⟩ := compileStage_ok reg hreg opt t
+    simp only [AccGroup.applyT]
+    split
+    · rw [hc]; exact ⟨_, _, rfl, hg n c⟩
+    · exact ⟨_, _, rfl, hg n none⟩
+  | addData n t i =>
+    obtain ⟨c, hc⟩ := compileStage_ok reg hreg opt t
+    simp only [AccGroup.applyT]
+    split
+    · rw [hc]; exact ⟨_, _, rfl, hd n c i⟩
+    · exact ⟨_, _, rfl, hd n none i⟩
+  | setSort t =>
+    obtain ⟨c, hc⟩ := compileStage_ok reg hreg opt t
+    simp only [AccGroup.applyT]
+    rw [hc]; exact ⟨_, _, rfl, hs c⟩
+  | sample e => cases hop
+
+theorem applyAllT_cfg_ok (reg : Registry) (hreg : Rare.Expr.SafeRegistry reg) (opt : Bool) (ops : List AccTOp) :
+    ∀ s : AccGroup, (∀ op ∈ ops, op.isSample = false) →
+      ∃ s' es, s.applyAllT reg opt ops = .ok (s', es) ∧ s'.data = s.data := by
+  induction ops with
+  | nil => intro s _; exact ⟨s, [], rfl, rfl⟩
+  | cons op rest ih =>
+    intro s h
+    obtain ⟨s1, e1, h1, d1⟩ := applyT_cfg_ok reg hreg opt s op (h op (by simp))
+    obtain ⟨s2, es, h2, d2⟩ := ih s1 (fun o ho => h o (by simp [ho]))
+    refine ⟨s2, e1 :: es, ?_, by rw [d2, d1]⟩
+    unfold AccGroup.applyAllT
+    rw [h1]; simp only; rw [h2]
 
 end Rare.C07
